@@ -9,3 +9,4 @@ from . import entry  # noqa: F401
 from . import construct  # noqa: F401
 from . import graph  # noqa: F401
 from . import signature  # noqa: F401
+from . import specparser  # noqa: F401
